@@ -11,7 +11,7 @@ func init() {
 		Decides: "(R18.1) in SuffrageStateBuilder.prove the slot index computed from a remote proof's suffrage height is tested to be within [0, len) before the slot store (a negative index panics inside a worker goroutine), and every neighbour access is guarded; " +
 			"(R18.2) a proof fetched for a suffrage height is used only if its own suffrage height equals the requested one, was found and fetched without error; " +
 			"(R18.3) every fetched proof is proved against the local previous state (slot 0) or its stored neighbours under the prove lock; the remote's last proof is validated before anything is built on it; Build reports success only after the batch build succeeded, and BatchWork drops no batch's error; " +
-			"(R18.4) the proofs of a finished batch are handed over before the batch list is replaced (the returned chain covers all batches).; (R18.6) a fetched proof, the remote's last proof and a state's previous hash are used as receivers only after a nil test; (R18.7) Build hands out the proved batch list only if its last element is the remote's last proof, and appends nothing unproved",
+			"(R18.4) the proofs of a finished batch are handed over before the batch list is replaced (the returned chain covers all batches).; (R18.6) a fetched proof, the remote's last proof and a state's previous hash are used as receivers only after a nil test; (R18.7) Build hands out the proved batch list only if its last element is the remote's last proof, and appends nothing unproved A non-genesis proof links to the previous state only through a previous hash that is present and equal.",
 		NotDecided: "panics inside the remote proofs' own methods for malformed objects (they are decoded and validated by the network client); the fixed-tree proof itself (C12/C13).",
 		Run:        runC18,
 	})
@@ -57,6 +57,12 @@ func runC18(c *Ctx) {
 	if fn := c.Need("isaac/block.(SuffrageProof).Prove"); fn != nil {
 		c.Rule("R18.6", "NilGuard")
 		c.MP(fn, "the state's previous hash is used only after a nil test", c.CallsD(fn, "s.st.Previous().Equal(*)"), 1, GNonNil("s.st.Previous()"))
+		// a proof links to the previous state only through a previous hash that is there and equal: a state
+		// without a previous hash proves nothing about its predecessor
+		succ := c.SuccessReturns(fn)
+		link := []Gate{GCmp("s.m.Manifest().Height()", "==", "base.GenesisHeight"), GCmp("s.m.Manifest().Height()", "<=", "base.GenesisHeight")}
+		c.MP(fn, "non-genesis proof: success only with a previous hash", succ, 1, append(link, GNonNil("s.st.Previous()"))...)
+		c.MP(fn, "non-genesis proof: success only if the previous hash is the previous state's", succ, 1, append(link, GTrue("s.st.Previous().Equal(previousState.Hash())"))...)
 	}
 	builderProveRules(c, "R18.1", "R18.3")
 	if parent := c.Need("isaac.(*SuffrageStateBuilder).buildBatch"); parent != nil {
